@@ -95,6 +95,172 @@ theorem wrong_password_rejected (C : Cipher) (hC : CipherOK C) (hW : WrongKeyRej
   rw [if_neg (hC.enc_nonempty _ _ _)]
   simp only [hW _ _ _ _ hne]
 
+/-! ### the cipher is looked up: recorded crypto type, default for wallets without one
+
+Wallet files written by old releases have no `cryptoType` (nor `encrypted`) meta field.  Such a
+wallet is locked with the default cipher, and the locked wallet must RECORD that type, otherwise
+`Unlock` (which refuses a wallet without a recorded type) can never restore it. -/
+
+structure CiphersOK (T : Ciphers) : Prop where
+  ok : ∀ n C, T.get n = some C → CipherOK C
+  default_known : ∃ C, T.get T.default = some C
+  default_named : T.default ≠ ""
+
+theorem lookupS_setS (k v : String) (m : List (String × String)) : lookupS k (setS k v m) = some v := by
+  induction m with
+  | nil => simp [setS, lookupS]
+  | cons h t ih =>
+    obtain ⟨a, b⟩ := h
+    unfold setS
+    by_cases c : a = k
+    · rw [if_pos c]; simp [lookupS]
+    · rw [if_neg c]; simp [lookupS, c, ih]
+
+theorem setS_same {k v : String} {m : List (String × String)} (h : lookupS k m = some v) : setS k v m = m := by
+  induction m with
+  | nil => simp [lookupS] at h
+  | cons x t ih =>
+    obtain ⟨a, b⟩ := x
+    unfold setS
+    by_cases c : a = k
+    · rw [if_pos c]; simp [lookupS, c] at h; subst h; subst c; rfl
+    · rw [if_neg c]; simp [lookupS, c] at h; rw [ih h]
+
+theorem recorded_withType (ct : String) (w : Wallet) : recorded (withType ct w) = ct := by
+  simp [recorded, withType, lookupS_setS]
+
+theorem withType_recorded (w : Wallet) (h : recorded w ≠ "") : withType (recorded w) w = w := by
+  unfold recorded at h ⊢
+  cases hl : lookupS "cryptoType" w.pubMeta with
+  | none => simp [hl] at h
+  | some v =>
+    simp only [Option.getD_some, withType, setS_same hl]
+
+theorem effType_ne (T : Ciphers) (hT : CiphersOK T) (w : Wallet) : effType T w ≠ "" := by
+  unfold effType
+  by_cases c : recorded w = ""
+  · rw [if_pos c]; exact hT.default_named
+  · rw [if_neg c]; exact c
+
+/-- Unlock does not look at the public meta: the recorded type rides along -/
+theorem unlock_withType (C : Cipher) (ct : String) (w : Wallet) (pw : Bytes) :
+    unlock C (withType ct w) pw =
+      match unlock C w pw with
+      | .ok u => .ok (withType ct u)
+      | .error e => .error e := by
+  unfold unlock withType
+  dsimp only
+  repeat' split
+  all_goals simp_all
+  all_goals (subst_vars; simp)
+
+/-- Lock with the looked-up cipher succeeds exactly when Lock does, provided the wallet's recorded
+type (if it has one) is a registered cipher; a wallet WITHOUT a recorded type is always lockable -/
+theorem lockT_ok_iff (T : Ciphers) (hT : CiphersOK T) (w : Wallet) (pw r : Bytes)
+    (hk : recorded w ≠ "" → ∃ C, T.get (recorded w) = some C) :
+    (∃ w', lockT T w pw r = .ok w') ↔ (w.temp = false ∧ pw.length ≠ 0 ∧ w.encrypted = false) := by
+  have hget : ∃ C, T.get (effType T w) = some C := by
+    unfold effType
+    by_cases c : recorded w = ""
+    · rw [if_pos c]; exact hT.default_known
+    · rw [if_neg c]; exact hk c
+  obtain ⟨C, hC⟩ := hget
+  constructor
+  · rintro ⟨w', h⟩
+    unfold lockT at h
+    by_cases h1 : w.temp = true
+    · rw [if_pos h1] at h; cases h
+    by_cases h2 : pw.length = 0
+    · rw [if_neg h1, if_pos h2] at h; cases h
+    by_cases h3 : w.encrypted = true
+    · rw [if_neg h1, if_neg h2, if_pos h3] at h; cases h
+    exact ⟨by simpa using h1, h2, by simpa using h3⟩
+  · rintro ⟨h1, h2, h3⟩
+    obtain ⟨w'', hl⟩ := (lock_ok_iff C w pw r).mpr ⟨h1, h2, h3⟩
+    refine ⟨withType (effType T w) w'', ?_⟩
+    unfold lockT
+    rw [if_neg (by simp [h1]), if_neg h2, if_neg (by simp [h3])]
+    simp only [hC, hl]
+
+/-- what `lockT` returns: the plain lock under the looked-up cipher, with the USED type recorded -/
+theorem lockT_ok {T : Ciphers} {w w' : Wallet} {pw r : Bytes} (h : lockT T w pw r = .ok w') :
+    ∃ C w'', T.get (effType T w) = some C ∧ lock C w pw r = .ok w'' ∧ w' = withType (effType T w) w'' := by
+  unfold lockT at h
+  by_cases h1 : w.temp = true
+  · rw [if_pos h1] at h; cases h
+  by_cases h2 : pw.length = 0
+  · rw [if_neg h1, if_pos h2] at h; cases h
+  by_cases h3 : w.encrypted = true
+  · rw [if_neg h1, if_neg h2, if_pos h3] at h; cases h
+  rw [if_neg h1, if_neg h2, if_neg h3] at h
+  cases hg : T.get (effType T w) with
+  | none => rw [hg] at h; cases h
+  | some C =>
+    rw [hg] at h
+    dsimp only at h
+    cases hl : lock C w pw r with
+    | error e => rw [hl] at h; cases h
+    | ok w'' =>
+      rw [hl] at h
+      injection h with h
+      exact ⟨C, w'', rfl, hl, h.symm⟩
+
+/-- **lock_removes_secrets**, looked-up cipher (legacy wallets included) -/
+theorem lockT_removes_secrets (T : Ciphers) (w w' : Wallet) (pw r : Bytes)
+    (h : lockT T w pw r = .ok w') : secretsOf w' = [] := by
+  obtain ⟨C, w'', _, hl, rfl⟩ := lockT_ok h
+  have := lock_removes_secrets C w w'' pw r hl
+  simpa [secretsOf, withType] using this
+
+/-- the locked wallet records the type that was used — never the empty type -/
+theorem lockT_records (T : Ciphers) (hT : CiphersOK T) (w w' : Wallet) (pw r : Bytes)
+    (h : lockT T w pw r = .ok w') : recorded w' = effType T w ∧ recorded w' ≠ "" := by
+  obtain ⟨C, w'', _, _, rfl⟩ := lockT_ok h
+  rw [recorded_withType]
+  exact ⟨rfl, effType_ne T hT w⟩
+
+/-- **unlock_lock** for every well-formed wallet, with or without a recorded crypto type: the same
+password restores the original wallet (whose meta now names the cipher that was used) -/
+theorem unlock_lockT (T : Ciphers) (hT : CiphersOK T) (w w' : Wallet) (pw r : Bytes) (hw : WellFormed w)
+    (h : lockT T w pw r = .ok w') : unlockT T w' pw = .ok (withType (effType T w) w) := by
+  obtain ⟨C, w'', hg, hl, rfl⟩ := lockT_ok h
+  have hC := hT.ok _ _ hg
+  have hu := unlock_lock C hC w w'' pw r hw hl
+  obtain ⟨_, hp, _⟩ := (lock_ok_iff C w pw r).mp ⟨w'', hl⟩
+  obtain ⟨_, _, _, henc, hsec⟩ := lock_keeps_public C hC w w'' pw r hl
+  unfold unlockT
+  have e1 : (withType (effType T w) w'').encrypted = true := henc
+  have e2 : (withType (effType T w) w'').secrets.length ≠ 0 := hsec
+  rw [e1, recorded_withType]
+  simp only [Bool.not_true, Bool.false_eq_true, if_false]
+  rw [if_neg hp, if_neg e2, if_neg (effType_ne T hT w), hg]
+  simp only
+  rw [unlock_withType, hu]
+
+/-- … and a wallet that already names its cipher comes back exactly -/
+theorem unlock_lockT_recorded (T : Ciphers) (hT : CiphersOK T) (w w' : Wallet) (pw r : Bytes) (hw : WellFormed w)
+    (hrec : recorded w ≠ "") (h : lockT T w pw r = .ok w') : unlockT T w' pw = .ok w := by
+  rw [unlock_lockT T hT w w' pw r hw h]
+  unfold effType
+  rw [if_neg hrec, withType_recorded w hrec]
+
+/-- **wrong_password_rejected**, looked-up cipher -/
+theorem wrong_password_rejected_T (T : Ciphers) (hT : CiphersOK T) (hW : ∀ n C, T.get n = some C → WrongKeyRejected C)
+    (w w' : Wallet) (pw pw' r : Bytes) (h : lockT T w pw r = .ok w') (hne : pw' ≠ pw) (hp' : pw'.length ≠ 0) :
+    unlockT T w' pw' = .error .invalidPassword := by
+  obtain ⟨C, w'', hg, hl, rfl⟩ := lockT_ok h
+  have hC := hT.ok _ _ hg
+  have hu := wrong_password_rejected C hC (hW _ _ hg) w w'' pw pw' r hl hne hp'
+  obtain ⟨_, _, _, henc, hsec⟩ := lock_keeps_public C hC w w'' pw r hl
+  unfold unlockT
+  have e1 : (withType (effType T w) w'').encrypted = true := henc
+  have e2 : (withType (effType T w) w'').secrets.length ≠ 0 := hsec
+  rw [e1, recorded_withType]
+  simp only [Bool.not_true, Bool.false_eq_true, if_false]
+  rw [if_neg hp', if_neg e2, if_neg (effType_ne T hT w), hg]
+  simp only
+  rw [unlock_withType, hu]
+
 /-! ### Decrypt never panics -/
 
 /-- `Sha256Xor.Decrypt` — the block loop -/
@@ -266,6 +432,23 @@ example : WellFormed exW := ⟨by intro k v v' h1 h2; simp [exW] at h1 h2; rcase
   by intro e e' h1 h2 h3; simp [exW] at h1 h2; rcases h1 with rfl | rfl <;> rcases h2 with rfl | rfl <;> simp_all, rfl⟩
 example : (secretsOf exW).length = 4 := by decide
 example : ∃ w', lock toyCipher exW [1] [] = .ok w' ∧ secretsOf w' = [] := ⟨_, rfl, by decide⟩
+
+/-! legacy wallet (no `cryptoType` in its meta, as `exW`): locked with the default cipher, the type
+is recorded, the same password restores it, another one is refused -/
+def exCipher : Cipher := { toyCipher with ser := fun _ => [1], deser := fun _ => some (pack exW) }
+def exT : Ciphers := ⟨fun n => if n = "default-cipher" ∨ n = "other" then some exCipher else none, "default-cipher"⟩
+
+example : recorded exW = "" := by decide
+example : ∃ w', lockT exT exW [1] [] = .ok w' ∧ recorded w' = "default-cipher" ∧ secretsOf w' = [] ∧
+    unlockT exT w' [1] = .ok (withType "default-cipher" exW) ∧ unlockT exT w' [2] = .error .invalidPassword :=
+  ⟨_, rfl, by decide, by decide, rfl, rfl⟩
+-- a wallet that names its cipher comes back exactly
+example : ∃ w', lockT exT (withType "other" exW) [1] [] = .ok w' ∧ unlockT exT w' [1] = .ok (withType "other" exW) :=
+  ⟨_, rfl, rfl⟩
+-- what the theorems exclude: a Lock that encrypts with the default cipher but records the wallet's own (absent)
+-- type yields a wallet that no password opens
+example : ∃ w', lock exCipher exW [1] [] = .ok w' ∧ unlockT exT (withType (recorded exW) w') [1] = .error .missingCryptoType :=
+  ⟨_, rfl, rfl⟩
 
 /-- a library environment for the examples: metadata with a 12-byte nonce and valid parameters -/
 def exE (N R P : Int) (nonceLen : Nat) : SEnv where
